@@ -57,6 +57,9 @@ func c20R1(c *Ctx) {
 		if len(res) != 4 {
 			return
 		}
+		for i := range res {
+			res[i] = helperResult(res[i])
+		}
 		cnt++
 		key := fmt.Sprintf("return@%s#%d", c.fnName(fn), cnt)
 		if isNilConst(res[3]) {
@@ -565,7 +568,57 @@ func c20R9(c *Ctx) {
 			k, ok := constString(x.Index)
 			return ok && k == "workflow"
 		case *ssa.Extract:
+			// a result of a helper of this package (`path, ok := subworkflowPathOf(stepData)`): what the helper returns there
+			if call, ok := x.Tuple.(*ssa.Call); ok {
+				if callee := call.Common().StaticCallee(); callee != nil && isRepoFn(callee) && len(callee.Blocks) > 0 {
+					n := 0
+					for _, b := range callee.Blocks {
+						if len(b.Instrs) == 0 {
+							continue
+						}
+						ret, isRet := b.Instrs[len(b.Instrs)-1].(*ssa.Return)
+						if !isRet {
+							continue
+						}
+						rs := retResults(ret)
+						if x.Index >= len(rs) {
+							return false
+						}
+						if cst, isC := rs[x.Index].(*ssa.Const); isC && (cst.Value == nil || cst.Value.ExactString() == `""`) {
+							continue // the "not a string" return
+						}
+						n++
+						if !pure(rs[x.Index], d+1) {
+							return false
+						}
+					}
+					return n > 0
+				}
+				return false
+			}
 			return pure(x.Tuple, d+1)
+		case *ssa.Call:
+			// single-result helper
+			if callee := x.Common().StaticCallee(); callee != nil && isRepoFn(callee) && len(callee.Blocks) > 0 && callee.Signature.Results().Len() == 1 {
+				n := 0
+				for _, b := range callee.Blocks {
+					if len(b.Instrs) == 0 {
+						continue
+					}
+					if ret, isRet := b.Instrs[len(b.Instrs)-1].(*ssa.Return); isRet {
+						rs := retResults(ret)
+						if cst, isC := rs[0].(*ssa.Const); isC && (cst.Value == nil || cst.Value.ExactString() == `""`) {
+							continue
+						}
+						n++
+						if !pure(rs[0], d+1) {
+							return false
+						}
+					}
+				}
+				return n > 0
+			}
+			return false
 		case *ssa.TypeAssert:
 			return pure(x.X, d+1)
 		case *ssa.ChangeType:
